@@ -368,6 +368,7 @@ end
 
 /-- `HasType Δ v t`: v is a value of Go type t (slices and maps non-nil, sized integers in range) -/
 def HasType (Δ : Decls) (v : GoVal) (t : GoType) : Prop := hasTypeB Δ t v = true
+instance : Decidable (HasType Δ v t) := by unfold HasType; exact inferInstance
 
 mutual
 def encode (Δ : Decls) : GoType → GoVal → J
@@ -590,6 +591,7 @@ def nilAtCycProps (Γ : Comps) : List (String × Sch) → Option Sch → List (S
      | none => (match ad with | none => false | some s => nilAtCycB Γ s x)) || nilAtCycProps Γ p ad r
 end
 def NilAtCycle (Γ : Comps) (s : Sch) (j : J) : Prop := nilAtCycB Γ s j = true
+instance : Decidable (NilAtCycle Γ s j) := by unfold NilAtCycle; exact inferInstance
 
 def dupNames : List String → Bool
   | [] => false
@@ -617,5 +619,7 @@ def heredAll (bad : List Cand → Bool) (Δ : Decls) (t : GoType) : Bool :=
 
 def HasQuoted (Δ : Decls) (t : GoType) : Prop := heredAll quotedIn Δ t = true
 def DupNames (Δ : Decls) (t : GoType) : Prop := heredAll dupIn Δ t = true
+instance : Decidable (HasQuoted Δ t) := by unfold HasQuoted; exact inferInstance
+instance : Decidable (DupNames Δ t) := by unfold DupNames; exact inferInstance
 
 end KinModel.Gen3
